@@ -228,7 +228,7 @@ func c20NewChain(idx int, r *vg.Rand) *c20Chain {
 	lastResults := []byte(nil)
 	for h := int64(1); h <= c.n; h++ {
 		if h == changeAt {
-			params.Block.MaxBytes = int64(1024 * (1 + r.Intn(4096)))
+			params.Block.MaxBytes = int64(1048576 + 1024*r.Intn(4096)) // not below evidence.max_bytes
 			if r.Bool() {
 				params.Block.MaxGas = int64(r.Intn(1<<40)) - 1
 			}
@@ -746,7 +746,8 @@ func c20InfoCases(t *testing.T, cs *vg.Cases, c *c20Chain, r *vg.Rand) {
 		pick := rr.Intn(len(res.BlockMetas))
 		m := res.BlockMetas[pick]
 		reid := func() { m.BlockID.Hash = m.Header.Hash() }
-		honest := kind == "honest"
+		// honest answers, whatever the light client happens to have stored already
+		honest := kind == "honest" || kind == "honest-partial-store" || kind == "last-untrusted-by-lc"
 		switch kind {
 		case "honest-partial-store": // an honest answer, but the light client's store lacks some of the heights
 			lc.trusted[max] = false
